@@ -76,18 +76,25 @@ def brute_one_sided(ticks, labels, order, m, half):
     return C
 
 
+def _cl(name, ok, detail):
+    """A clause triple; the witness detail (a thunk) is only rendered when the clause fails."""
+    ok = bool(ok)
+    return name, ok, ('' if ok else detail())
+
+
 def _sym_clauses(S, C, half, tag=''):
     """Clauses of the sentence about the symmetrised result; C = one-sided counts (oracle)."""
     nc = C.shape[0]
-    yield 'sym-has-2*half+1-bins' + tag, S.shape == (nc, nc, 2 * half + 1), S.shape
+    yield _cl('sym-has-2*half+1-bins' + tag, S.shape == (nc, nc, 2 * half + 1), lambda: S.shape)
     if S.shape != (nc, nc, 2 * half + 1):
         return
     mir = np.transpose(S, (1, 0, 2))[..., ::-1]
-    yield 'sym-C[i,j,k]==C[j,i,-k]' + tag, np.array_equal(S, mir), S.tolist()
-    yield 'sym-reproduces-one-sided-counts-at-positive-lags' + tag, \
-        np.array_equal(S[..., half + 1:], C[..., 1:]), (S[..., half + 1:].tolist(), C[..., 1:].tolist())
-    yield 'sym-centre-is-larger-of-the-two-zero-lag-counts' + tag, \
-        np.array_equal(S[..., half], np.maximum(C[..., 0], C[..., 0].T)), (S[..., half].tolist(), C[..., 0].tolist())
+    yield _cl('sym-C[i,j,k]==C[j,i,-k]' + tag, np.array_equal(S, mir), lambda: S.tolist())
+    yield _cl('sym-reproduces-one-sided-counts-at-positive-lags' + tag, np.array_equal(S[..., half + 1:], C[..., 1:]),
+              lambda: ('got', S[..., half + 1:].tolist(), 'expected', C[..., 1:].tolist()))
+    yield _cl('sym-centre-is-larger-of-the-two-zero-lag-counts' + tag,
+              np.array_equal(S[..., half], np.maximum(C[..., 0], C[..., 0].T)),
+              lambda: ('got centre', S[..., half].tolist(), 'one-sided zero-lag counts', C[..., 0].tolist()))
 
 
 # ------------------------------------------------------------------------------------------------
@@ -117,15 +124,15 @@ def case_ccg(inp):
                     bin_size=m / sr, window_size=w / sr)
 
     one = np.asarray(G.correlograms(symmetrize=False, **args()))
-    yield 'one-sided-shape-is-(n_clusters,n_clusters,half+1)' + tag, one.shape == exp.shape, (one.shape, exp.shape)
-    yield 'one-sided-entry-equals-brute-force-pair-count' + tag, \
-        one.shape == exp.shape and np.array_equal(one, exp), (one.tolist(), exp.tolist())
+    yield _cl('one-sided-shape-is-(n_clusters,n_clusters,half+1)' + tag, one.shape == exp.shape, lambda: (one.shape, exp.shape))
+    yield _cl('one-sided-entry-equals-brute-force-pair-count' + tag, one.shape == exp.shape and np.array_equal(one, exp),
+              lambda: ('got', one.tolist(), 'expected', exp.tolist()))
     sym = np.asarray(G.correlograms(symmetrize=True, **args()))
     yield from _sym_clauses(sym, exp, half, tag)
     if inp.get('default_sym'):
         # symmetrize defaults to True
         sym2 = np.asarray(G.correlograms(**args()))
-        yield 'default-is-symmetrised' + tag, np.array_equal(sym2, sym), sym2.shape
+        yield _cl('default-is-symmetrised' + tag, np.array_equal(sym2, sym), lambda: sym2.shape)
     yield '__nontrivial__', len(ticks) >= 2, ''
 
 
@@ -137,7 +144,8 @@ def case_symmetrize(inp):
     yield from _sym_clauses(np.asarray(S), C.astype(np.int64), half)
     if np.asarray(S).shape == (nc, nc, 2 * half + 1):
         neg = np.transpose(C, (1, 0, 2))[..., 1:][..., ::-1]
-        yield 'sym-negative-lags-are-the-one-sided-counts-of-(j,i)', np.array_equal(np.asarray(S)[..., :half], neg), np.asarray(S).tolist()
+        yield _cl('sym-negative-lags-are-the-one-sided-counts-of-(j,i)', np.array_equal(np.asarray(S)[..., :half], neg),
+                  lambda: np.asarray(S).tolist())
 
 
 def case_firing_rate(inp):
@@ -206,30 +214,42 @@ def enumerate_cases(ctx):
     quick = ctx.tier == 'quick'
     rs = np.random.RandomState(ctx.seed)
 
-    # (bin ticks, window ticks): half = win // (2 bin); includes half = 0, window an exact even
-    # multiple of the bin (dyadic rates only), and edges (half+1)*bin - 1 / (half+1)*bin inside the grid
-    BW = [(1, 1), (1, 3), (1, 4), (2, 3), (2, 6), (3, 9)] if quick else \
-         [(1, 1), (1, 2), (1, 3), (1, 4), (1, 5), (2, 3), (2, 4), (2, 6), (2, 10), (3, 4), (3, 9), (4, 12)]
-    # ---- family A: exhaustive trains x labelings x id lists x (bin, window), sr = 1
+    # (bin ticks, window ticks): half = win // (2 bin).  Includes half = 0, windows that are an exact even multiple
+    # of the bin, and the window edges (half+1)*bin - 1 | (half+1)*bin inside the grid.
+    BW5 = [(1, 1), (1, 3), (1, 4), (2, 6), (3, 9)]
+    BW2 = [(1, 3), (2, 6)]
+    BW8 = BW5 + [(1, 2), (2, 3), (2, 10)]
+    BW3 = [(1, 3), (2, 6), (1, 5)]
+    one = lambda k: [[EMPTY_IDS[1]] + ID_POOL[1:k] + [EMPTY_IDS[0]] + ID_POOL[:1]]   # permuted + two spike-less ids
+    # family A plan rows: (k clusters, n_max spikes, grid size, cluster_ids lists, (bin, window) list)
     if quick:
-        plan = [(1, 5, 7, 1), (2, 4, 7, 1), (2, 5, 6, 0), (3, 3, 6, 1), (3, 4, 6, 0), (4, 3, 5, 0)]
+        plan = [(2, 4, 6, one(2), BW5),
+                (2, 3, 4, id_lists(2, 1), BW2),
+                (3, 3, 4, id_lists(3, 0), BW2),
+                (3, 2, 4, id_lists(3, 1), BW2[:1]),
+                (4, 3, 4, id_lists(4, 0)[:3], BW2[1:]),
+                (1, 6, 6, [[2]], BW5)]
     else:
-        plan = [(1, 6, 8, 1), (2, 5, 8, 1), (2, 6, 7, 0), (3, 4, 7, 1), (3, 5, 6, 0), (4, 3, 6, 1), (4, 4, 6, 0)]
-    ctx.scope('correlograms (one-sided + symmetrised) vs brute-force pair count, sample_rate 1: for (k clusters, '
-              'n_max spikes, grid size, id-list level) in %s: ALL non-decreasing trains of 0..n_max spikes on the grid '
-              '(ties incl.) x ALL labelings over ids %s[:k] x cluster_ids in {None, pool order, reversed, with '
-              'spike-less ids %s; level 1: every permutation, each also with a spike-less id at every position} x '
-              '(bin, window) ticks in %s (exhaustive)' % (plan, ID_POOL, EMPTY_IDS, BW))
+        plan = [(2, 5, 7, one(2), BW8),
+                (2, 6, 6, one(2), BW3),
+                (2, 4, 6, id_lists(2, 1), BW3),
+                (3, 4, 6, id_lists(3, 0), BW2),
+                (3, 3, 4, id_lists(3, 1), BW2),
+                (4, 4, 5, [None, one(4)[0]], BW2),
+                (4, 3, 4, id_lists(4, 0), BW3),
+                (1, 7, 8, [[2], None], BW8)]
+    ctx.scope('correlograms (one-sided + symmetrised) vs brute-force pair count, sample_rate 1; for each row (k clusters, '
+              'n_max, grid, #cluster_ids lists, (bin, window) ticks) in %s: ALL non-decreasing trains of 0..n_max spikes on '
+              'grid 0..grid-1 (ties incl.) x ALL labelings over ids %s[:k] x the cluster_ids lists (None, pool order, '
+              'reversed, permutations, permutations with a spike-less id from %s at every position) x the (bin, window) '
+              'pairs (exhaustive)' % ([(k, n, g, len(i), bw) for k, n, g, i, bw in plan], ID_POOL, EMPTY_IDS))
     seen = set()
-    for k, nmax, g, level in plan:
-        idl = id_lists(k, level)
+    for k, nmax, g, idl, bws in plan:
         for n in range(0, nmax + 1):
             for tr in trains(n, g):
                 for lab in itertools.product(ID_POOL[:k], repeat=n):
                     for ids in idl:
-                        for (m, w) in BW:
-                            if max(tr, default=0) < 0:
-                                continue
+                        for (m, w) in bws:
                             key = (tr, lab, None if ids is None else tuple(ids), m, w)
                             if key in seen:
                                 continue
@@ -238,28 +258,27 @@ def enumerate_cases(ctx):
     seen.clear()
 
     # ---- family B: other sample rates (time*rate exact), bins of several samples, offsets, dtypes
-    RATES = [0.5, 2.0, 4.0, 10.0, 3.0, 1000.0, 20000.0, 30000.0] if quick else \
-            [0.25, 0.5, 2.0, 4.0, 8.0, 10.0, 3.0, 7.0, 100.0, 1000.0, 20000.0, 25000.0, 30000.0]
-    nB, gB = (4, 6) if quick else (5, 7)
-    BWB = [(1, 3), (2, 2), (2, 5), (3, 9), (5, 13)] if quick else [(1, 1), (1, 3), (2, 2), (2, 5), (2, 6), (3, 9), (3, 15), (5, 13), (7, 10)]
+    RATES = [0.5, 2.0, 10.0, 3.0, 1000.0, 30000.0] if quick else \
+            [0.25, 0.5, 2.0, 4.0, 10.0, 3.0, 7.0, 100.0, 1000.0, 20000.0, 25000.0, 30000.0]
+    nB, gB = (3, 5) if quick else (4, 6)
+    BWB = [(2, 2), (2, 5), (3, 9)] if quick else [(2, 2), (2, 5), (1, 3), (3, 9), (5, 13)]
     ctx.scope('correlograms at sample rates %s (only trains with tick/sr*sr == tick in floats): ALL trains of 0..%d spikes '
-              'on a grid of %d ticks x ALL labelings over 2 clusters x cluster_ids in {[0,2],[9,2,1,0]} x (bin, window) '
-              'ticks in %s (non-dyadic rates: only windows whose half-window is not at an integer boundary) x tick offset '
-              '{0, 12345}' % (RATES, nB, gB, BWB))
+              'on a grid of %d ticks x ALL labelings over 2 clusters x cluster_ids [9,2,1,0] (list) or [0,2] (array, with '
+              'tick offset 12345, int32 labels, default symmetrize) x (bin, window) ticks in %s (non-dyadic rates: only '
+              'windows whose half-window is not at an integer boundary)' % (RATES, nB, gB, BWB))
     for sr in RATES:
         for n in range(0, nB + 1):
             for tr in trains(n, gB):
                 for lab in itertools.product(ID_POOL[:2], repeat=n):
-                    for ids, ids_as in (([0, 2], 'array'), ([9, 2, 1, 0], 'list')):
-                        for (m, w) in BWB:
-                            for base in (0, 12345):
-                                if base and (n < 2 or (m, w) != BWB[1]):
-                                    continue
-                                if not _pre([base + x for x in tr], sr, m, w):
-                                    continue
-                                ctx.run('ccg', {'ticks': list(tr), 'labels': list(lab), 'ids': ids, 'sr': sr, 'bin': m,
-                                                'win': w, 'base': base, 'ids_as': ids_as,
-                                                'ldtype': 'int32' if base else 'int64', 'default_sym': bool(base)})
+                    for (m, w) in BWB:
+                        for base in (0, 12345):
+                            if base and (n < 2 or (m, w) != BWB[1]):
+                                continue
+                            if not _pre([base + x for x in tr], sr, m, w):
+                                continue
+                            ctx.run('ccg', {'ticks': list(tr), 'labels': list(lab), 'ids': [0, 2] if base else [9, 2, 1, 0],
+                                            'sr': sr, 'bin': m, 'win': w, 'base': base, 'ids_as': 'array' if base else 'list',
+                                            'ldtype': 'int32' if base else 'int64', 'default_sym': bool(base)})
 
     # ---- family C: seeded random long trains
     NR, NMAX = (40, 120) if quick else (400, 700)
